@@ -27,7 +27,12 @@ func VerifSetYield(fn func(point, key string)) {
 // VerifStopWorkers stops the background flush workers, so that the harness can
 // run flushes itself with VerifFlushNext.
 func (s *Store) VerifStopWorkers() {
-	close(s.impl.flusher.stop)
+	old := s.impl.flusher
+	close(old.stop)
+	// A worker that has not been scheduled yet could still pick a notification over
+	// the stop signal, so replace the flusher with one that has no workers at all.
+	// Must be called before the store is used.
+	s.impl.flusher = newFlusher(old.mem, old.disk, old.log, 0)
 }
 
 // VerifFlushNext does what a worker does for one queue entry: it takes the next
